@@ -13,7 +13,7 @@
 Not decided: from_bytes(to_bytes(x)) = x as a function on all values (bit-level inverse-ness of the packing
 loops); lossless narrowing of the solver's i32 output (needs magnitude knowledge of F, G)."""
 from fv.absint import St, Pt, Ag, I, Sq, En, Md, Top
-from fv.oracle import SPEC, pqclean
+from fv.oracle import SPEC, pqclean, Q
 from .common import Session, record_obligations
 from . import c03, effects, skeleton
 
@@ -134,5 +134,105 @@ def run(R):
         # (3) from_b0 deterministic
         fb = S.find(f"falcon::SecretKey::<{N}>::from_b0")
         effects.cone_is_deterministic(R, prog, [fb.id], "C05-effects", f"from_b0::<{N}>", floor_instances=100)
-    R.analysed["unsupported"] = S.unsupported[:10]
+    clause_field_codec(R)
+    R.analysed.setdefault("unsupported", []).extend(S.unsupported[:10])
     R.floor("encoders analysed", 6, 6)
+
+
+def clause_field_codec(R, rule="C05-field"):
+    """secret-key field codec, bit by bit, in the known-bits domain: serialize_field_element(w, x) writes bit j of the
+    balanced value at position w-1-j, deserialize_field_element reads position w-1-j back into bit j and sign-extends.
+    2w partitions per width (bit j known 0 / known 1, all other bits unknown) cover every representable value, so
+    deserialize(serialize(x)) = x as an integer for all of them. balanced_value is used through its C12 contract
+    (any value in its range), Felt::new(x) likewise (class of x)."""
+    from fv.absint import Md
+    from fv.models import ret1
+    from . import symalg
+    S = Session()
+    ctx = S.ctx
+    ctx.hooks["may_panic"] = lambda inst: False
+    ctx.hooks["exact_anyall"] = True
+    ctx.hooks["exact_collect_max"] = 8
+    ctx.hooks["kbits_eager"] = True
+    u8, usz, i16, u32 = S.ty("u8"), ctx.usize_ty(), S.ty("i16"), S.ty("u32")
+    part = {}
+
+    def m_bal(E, st, fr, bi, callee, args, dest_ty):
+        lo, hi, mask, val = part["p"]
+        z = ctx.mk_int(st, lo, hi, i16)
+        st.prov[z.vid] = ("kbits", (), (mask, val))
+        return ret1(z, st)
+    symalg.install(S, [(r"^falcon_rust::falcon_field::Felt::balanced_value$", m_bal)])
+    nruns = 0
+    for N in (512, 1024):
+        ser = S.find(f"falcon::SecretKey::<{N}>::serialize_field_element")
+        de = S.find(f"falcon::SecretKey::<{N}>::deserialize_field_element")
+        ctx.hooks["unroll"] = lambda fr, h, ser=ser, de=de: 10 if fr.inst in (ser, de) else 0
+        for w in sorted(set(widths(S, N))):
+            bad_s, bad_d = [], []
+            for j in range(w):
+                for b in (0, 1):
+                    lim = (1 << (w - 1)) - 1
+                    if j == w - 1:
+                        mask = 0xFFFF & ~((1 << (w - 1)) - 1)
+                        val = mask if b else 0
+                        lo, hi = (-lim, -1) if b else (0, lim)
+                    else:
+                        mask, val, lo, hi = 1 << j, b << j, -lim, lim
+                    part["p"] = (lo, hi, mask, val)
+                    pushes = []
+
+                    def obs(ev, **kw):
+                        if ev == "enter" and not ctx.quiet and kw["callee"].name.endswith("::push") and "BitVec" in kw["callee"].name:
+                            a = kw["args"]
+                            try:
+                                bv = S.E.load(kw["st"], a[0].key, a[0].proj)
+                                pushes.append((kw["st"].const(bv.d["len"]), kw["st"].itv[a[1].vid]))
+                            except Exception:
+                                pushes.append((None, None))
+                    ctx.observers.append(obs)
+                    st = St()
+                    S.run(ser, [ctx.const_int(st, w, usz), Ag((ctx.mk_int(st, 0, Q - 1, u32),))], st)
+                    ctx.observers.remove(obs)
+                    nruns += 1
+                    if not (len(pushes) == w and [p[0] for p in pushes] == list(range(w)) and pushes[w - 1 - j][1] == (b, b)):
+                        bad_s.append(f"bit {j} = {b}: pushes {pushes}")
+                    # decoder
+                    newargs = []
+
+                    def obs2(ev, **kw):
+                        if ev == "enter" and not ctx.quiet and kw["callee"].name == "falcon_rust::falcon_field::Felt::new":
+                            x = kw["args"][0]
+                            newargs.append((kw["st"].itv[x.vid], kw["st"].prov.get(x.vid)))
+                    ctx.observers.append(obs2)
+                    st = St()
+                    pos = w - 1 - j
+                    bmask = (1 << (7 - pos)) | ((1 << (8 - w)) - 1)
+                    bval = b << (7 - pos)
+                    byte = ctx.mk_int(st, bval, 255, u8)
+                    st.prov[byte.vid] = ("kbits", (), (bmask, bval))
+                    src = Sq(byte, ctx.const_int(st, 1, usz), {0: byte})
+                    bits = S.cell(st, "bits", Md("bitvec", {"len": ctx.const_int(st, w, usz), "src": src}))
+                    S.run(de, [bits], st)
+                    ctx.observers.remove(obs2)
+                    nruns += 1
+                    okd = bool(newargs)
+                    for itv, p in newargs:
+                        if itv[0] == itv[1]:
+                            m_, v_ = 0xFFFF, itv[0] & 0xFFFF
+                        elif p and p[0] == "kbits":
+                            m_, v_ = p[2]
+                        else:
+                            okd = False
+                            break
+                        need = mask
+                        okd = okd and (m_ & need) == need and (v_ & need) == (val & need)
+                    if not okd:
+                        bad_d.append(f"position {pos} = {b}: Felt::new argument {newargs[:2]}")
+            site = f"SecretKey::<{N}> field codec, width {w}"
+            R.check(not bad_s, rule, site + " (writer)", f"bit j of the balanced value is written at position {w}-1-j, for every j and both polarities ({2 * w} known-bits partitions)",
+                    f"{len(bad_s)} partition(s) differ, e.g. {bad_s[:1]}", key=f"field|ser|{N}|{w}")
+            R.check(not bad_d, rule, site + " (reader)", f"position {w}-1-j is read back into bit j, the sign bit into bits {w - 1}..15 ({2 * w} known-bits partitions): deserialize(serialize(x)) = x for every representable x",
+                    f"{len(bad_d)} partition(s) differ, e.g. {bad_d[:1]}", key=f"field|de|{N}|{w}")
+    R.floor("field codec partitions run", nruns, 100)
+    R.analysed.setdefault("unsupported", []).extend(S.unsupported[:5])
